@@ -23,6 +23,6 @@ C08_OK(e) ==
 Violated(e) == CASE e.q = "get" -> (IF C07_OK(e) THEN {} ELSE {"C07"})
                  [] e.q = "glob" -> (IF C08_OK(e) THEN {} ELSE {"C08"})
 TInit == l = 1
-TNext == l <= Len(Trace) /\ PrintT(<<"J", l, Trace[l].id, Violated(Trace[l])>>) /\ l' = l + 1
+TNext == l <= Len(Trace) /\ PrintT(ToString(<<"J", l, Trace[l].id, Violated(Trace[l])>>)) /\ l' = l + 1
 Accepted == TLCGet("stats").diameter - 1 = Len(Trace)
 =============================================================================
